@@ -194,10 +194,13 @@ enum PolicyStateKind<C> {
     },
     // mpc computation is executing in a separate tokio task
     Executing {
-        // use Notify because we notify in both directions, first from the `cancel` method
-        // to the tokio task to signal cancellation, and then the other direction if the
-        // cancel error has been sent to the output URL
+        // We notify in both directions: first from the `cancel` method to the tokio task to
+        // signal cancellation (`cancel`), and then the other direction once the task has ended
+        // and the output destination has been notified (`ended`). These must be two separate
+        // `Notify`s: with a single one, `cancel()` consumes its own permit whenever the task
+        // has not been polled yet and returns before anything was cancelled.
         cancel: Arc<Notify>,
+        ended: Arc<Notify>,
     },
 }
 
@@ -796,8 +799,10 @@ where
                 let tmp_dir = self.tmp_dir_path.clone();
                 let cmd_tx = self.cmd_tx.clone();
                 let cancel = Arc::new(Notify::new());
+                let ended = Arc::new(Notify::new());
                 self.state_kind = PolicyStateKind::Executing {
                     cancel: Arc::clone(&cancel),
+                    ended: Arc::clone(&ended),
                 };
                 let fut = async move {
                     let mpc_fut = async {
@@ -850,9 +855,10 @@ where
                             if let Err(err) = send_cancel(channel.client, policy).await {
                                 error!(%err, "unable to send cancelled error to output destination")
                             }
-                            cancel.notify_one();
                         }
-                    )
+                    );
+                    // wake a `cancel()` call that waits for this task, whichever branch ended it
+                    ended.notify_one();
                 };
 
                 tokio::spawn(fut.instrument(span));
@@ -1087,12 +1093,12 @@ where
                 channel: Channel { client, .. },
                 ..
             } => (client, policy),
-            PolicyStateKind::Executing { cancel } => {
+            PolicyStateKind::Executing { cancel, ended } => {
                 // send_cancel is called in spawned mpc tokio task
                 cancel.notify_one();
-                // when this is notified, the error has been sent to output
-                // destination if available
-                cancel.notified().await;
+                // when this is notified, the task has ended and the error (or, if the computation
+                // had just finished, the result) has been sent to the output destination
+                ended.notified().await;
                 let _ = ret.send(Ok(()));
                 return;
             }
